@@ -84,6 +84,9 @@ def analyse(rec, events, runs, label):
         if e["module"].name != e["name_at_return"]:
             rec.violation("module-renamed-after-return", f"{e['gen']}({e['kw']}) returned a module named '{e['name_at_return']}' which is now named "
                                                          f"'{e['module'].name}'", case={"kind": "rename", "gen": e["gen"], "kw": e["kw"]})
+        if qualname(e["module"]) != e["qualname_at_return"]:
+            rec.violation("module-renamed-after-return", f"{e['gen']}({e['kw']}) returned a module exported as '{e['qualname_at_return']}' which is now "
+                                                         f"exported as '{qualname(e['module'])}'", case={"kind": "rename", "gen": e["gen"], "kw": e["kw"]})
         if "0x" in e["module"].name:
             rec.violation("name-contains-address", f"{e['gen']}({e['kw']}): name '{e['module'].name}' contains a memory address", case={"kind": "addr"})
     # one module under two names / two modules under one name, across generators
